@@ -42,13 +42,14 @@ type viol struct {
 }
 
 type caseResult struct {
-	Tail  []byte // the capacity tail that exposed a cap/ finding
-	Class string // outcome class
-	Shape string // shape signature of the decoded object
-	Viol  []viol
-	Alloc uint64
-	Len   int
-	Acc   bool // implementation accepted
+	TxSizeOnRefused string // reference error class when TxSize > 0 although the reference refuses
+	Tail            []byte // the capacity tail that exposed a cap/ finding
+	Class           string // outcome class
+	Shape           string // shape signature of the decoded object
+	Viol            []viol
+	Alloc           uint64
+	Len             int
+	Acc             bool // implementation accepted
 }
 
 type violAgg struct {
@@ -68,6 +69,7 @@ type batchResult struct {
 	Viol      map[string]*violAgg `json:"viol"`
 	MaxFrac   float64             `json:"max_frac"`     // max alloc/bound over accepted decodes
 	MaxFracHx string              `json:"max_frac_hex"` // its case
+	TxSizePos map[string]int      `json:"txsize_pos,omitempty"`
 	Sample    string              `json:"sample,omitempty"`
 	SampleCl  string              `json:"sample_class,omitempty"`
 }
@@ -384,6 +386,15 @@ func evalTx(b []byte, cont []byte) (res caseResult) {
 		add("size/txsize-beyond-buffer", fmt.Sprintf("TxSize()=%d for a %d-byte input", tsA, len(b)))
 	} else if rerr == nil && tsA != rn {
 		add("size/txsize-mismatch", fmt.Sprintf("TxSize()=%d want %d", tsA, rn))
+	} else if rerr != nil && tsA > 0 {
+		// counted, not judged: TxSize only measures, it builds no transaction; every caller
+		// hands the bytes to NewTx, which is judged
+		res.TxSizeOnRefused = errClass(rerr)
+		if tx != nil {
+			res.TxSizeOnRefused += "/NewTx-accepts"
+		} else {
+			res.TxSizeOnRefused += "/NewTx-refuses"
+		}
 	}
 	// the same bytes as b[:len] of a longer backing array: nothing may depend on what lies
 	// between len and cap
@@ -819,6 +830,12 @@ func workerMain() {
 				bigAlloc = r.Alloc > 32<<20
 				agg.Evals++
 				agg.Classes[r.Class]++
+				if r.TxSizeOnRefused != "" {
+					if agg.TxSizePos == nil {
+						agg.TxSizePos = map[string]int{}
+					}
+					agg.TxSizePos[r.TxSizeOnRefused]++
+				}
 				if r.Shape != "" {
 					agg.Shapes[r.Class+"|"+r.Shape]++
 				}
